@@ -18,11 +18,11 @@ const c12TickBudget = 100000 // loop iterations inside the library per call; leg
 
 const absent = "" // an omitted slice part
 
-var c12Mixed = []rune("aé€😀bñ漢𝄞cßд🙂zあ\u0301q")
+var c12Mixed = []rune("aé€😀b\ufffd漢𝄞cßд🙂zあ\u0301q")
 var c12Ascii = []rune("abcdefghijklmnop")
 
 var c12Subjects = []string{"array", "objarray", "nested", "ascii", "mixed", "number", "object", "null"}
-var c12Forms = []string{"field", "current", "dot-k", "index0", "pipe0", "flatten", "paren", "then-reverse", "then-step2", "multi", "in-wildcard", "in-flatten", "in-filter", "in-slice", "in-wildcard-nulls"}
+var c12Forms = []string{"field", "current", "dot-k", "index0", "pipe0", "flatten", "paren", "then-reverse", "then-step2", "multi", "in-wildcard", "in-flatten", "in-filter", "in-slice", "in-wildcard-nulls", "in-hash", "in-hash-nested", "in-arg", "in-let"}
 
 func init() {
 	core.Register(&core.Check{
@@ -353,6 +353,23 @@ func c12Build(p map[string]any) (expr string, doc any, exp expectation, abstain 
 				// a bare array slice is a projection: nulls are omitted (there are none here)
 				want = sliced
 			}
+		}
+	case "in-hash", "in-hash-nested", "in-arg", "in-let":
+		// the slice inside another construct: same value, and a zero step is still reported as an invalid value
+		switch form {
+		case "in-hash":
+			expr = "{v: x" + sl + ", w: `1`}.v"
+		case "in-hash-nested":
+			expr = "{p: {q: x" + sl + "}}.p.q"
+		case "in-arg":
+			expr = "not_null(x" + sl + ", `7`)"
+		case "in-let":
+			expr = "let $s = x" + sl + " in $s"
+		}
+		doc = map[string]any{"x": subject}
+		want = sliced
+		if form == "in-arg" && sliced == nil {
+			want = core.Norm(int64(7))
 		}
 	case "in-wildcard", "in-flatten", "in-filter", "in-slice":
 		// the slice is the first step of another projection's right-hand side and is followed by a field: it starts a
